@@ -1,0 +1,19 @@
+//go:build verif
+
+// Verification contracts (property C37, addition; comment-only, read by /verif/govc).
+// queryTopics names EVERY topic a statement reads: FROM and JOIN topic of a SELECT, and for EXPLAIN exactly the
+// topics of the explained statement (the recursive call is on that statement and its answer is returned as is).
+
+package proxy
+
+//@ func queryTopics
+//@   ghost gres []string = nil
+//@   ghost gall bool = false
+//@   ghost grec bool = false
+//@   at queryTopics#1 before assert [C37.explain_asks_for_the_explained_statement] parsed.Explain != nil && arg0 == *parsed.Explain
+//@   at queryTopics#1 after set gres = ret0
+//@   at queryTopics#1 after set gall = ret1
+//@   at queryTopics#1 after set grec = true
+//@   ensures [C37.explain_returns_the_topics_of_the_explained_statement] grec ==> sameSlice(result0, gres) && result1 == gall
+//@   ensures [C37.select_lists_from_and_join_topic] parsed.Type == "select" ==> !result1 && len(result0) >= 1 && result0[0] == parsed.Topic && (parsed.JoinTopic != "" ==> len(result0) == 2 && result0[1] == parsed.JoinTopic)
+//@   ensures [C37.explain_of_a_statement_is_never_topicless] parsed.Type == "explain" && parsed.Explain != nil ==> grec
